@@ -58,13 +58,14 @@ def tlc(args, env, metadir, timeout):
     return rc, out, time.time() - t0
 
 
-def validate_trace(trace, wd, timeout=900):
+def validate_trace(trace, wd, timeout=900, extra_env=None):
     """run Trace.tla on one trace slice; returns the result record written by the spec"""
     out = trace + ".out.json"
     if os.path.exists(out):
         os.remove(out)
-    rc, log, dt = tlc(["-workers", "1", "-config", "Trace.cfg", "Trace.tla"],
-                      {"TRACE": trace, "OUT": out, "XMX": "3g", "DRIFT": "1"}, os.path.join(wd, "md_" + os.path.basename(trace)), timeout)
+    env = {"TRACE": trace, "OUT": out, "XMX": "3g", "DRIFT": "1"}
+    env.update(extra_env or {})
+    rc, log, dt = tlc(["-workers", "1", "-config", "Trace.cfg", "Trace.tla"], env, os.path.join(wd, "md_" + os.path.basename(trace)), timeout)
     if rc == 124:
         raise ToolError("TLC timeout on %s" % trace)
     if not os.path.exists(out) or "Model checking completed. No error has been found." not in log:
@@ -195,7 +196,7 @@ def record(plan, tier, seed, bins, wd, scale, tag):
 def validate_all(slices, wd, plan):
     results = []
     with cf.ThreadPoolExecutor(JOBS) as ex:
-        futs = {ex.submit(validate_trace, f, wd, plan.get("trace_timeout", 1500)): (f, j) for (f, j) in slices}
+        futs = {ex.submit(validate_trace, f, wd, plan.get("trace_timeout", 1500), plan.get("trace_env")): (f, j) for (f, j) in slices}
         for fu in cf.as_completed(futs):
             f, j = futs[fu]
             results.append((f, j, fu.result()))
@@ -255,11 +256,33 @@ def run(prop, plan, tier, seed, replay, wd, known, t0):
             variant = json.loads(first).get("variant", "std")
         except Exception:
             pass
-        if variant not in bins:
-            bins[variant] = build_harness(variant)
-        rc, o = sh([bins[variant], "replay", replay, out], env={"VERIF_SEED": str(seed)}, timeout=600)
-        if rc != 0:
-            raise ToolError("harness replay failed: " + o[-500:])
+        outs = []
+        for v in variant.split("+"):
+            if v not in bins:
+                bins[v] = build_harness(v)
+            o1 = os.path.join(wd, "traces", "replay_%s.ndjson" % v)
+            # each build replays only the calls (the recorded results of the other build are ignored)
+            tmp = os.path.join(wd, "traces", "replay_in_%s.ndjson" % v)
+            seen = set()
+            with open(tmp, "w") as fh:
+                for ln in open(replay):
+                    if not ln.strip():
+                        continue
+                    e = json.loads(ln)
+                    if e["op"] != "group":
+                        key = json.dumps([e["op"], e["sp"], e["d"], e["a"]], sort_keys=True)
+                        if "+" in variant and key in seen:
+                            continue      # the merged group contains every call once per configuration
+                        seen.add(key)
+                    fh.write(ln)
+            rc, o = sh([bins[v], "replay", tmp, o1], env={"VERIF_SEED": str(seed)}, timeout=600)
+            if rc != 0:
+                raise ToolError("harness replay failed: " + o[-500:])
+            outs.append(o1)
+        if len(outs) == 1:
+            out = outs[0]
+        else:
+            merge_groups(outs, out)
         slices.append((out, {"family": "replay", "variant": variant}))
     else:
         slices = record(plan, tier, seed, bins, wd, 1, "")
